@@ -14,7 +14,23 @@ CHECKS = {
  "C12": ("all append histories up to depth 4 (quick) / 6 (thorough) over 7 day blocks x 2 books; concatenation and element-wise-sum laws checked on every edge of the history tree", "§4 C12"),
  "C15": ("full product of presentation flags x all small logs; record equality, per-day interleaving law, colour law, shortening law, --desc law", "§4 C15"),
 }
+CHECKS.update({
+ "C04": ("every abstract file within the bound rendered under every layout departing from the README layout in at most 2 (3) places, every name/number of the alphabets at every position; the real parser's exact callback sequence compared with the abstract file (numbers rounded through big.Rat)", "§4 C04"),
+ "C09": ("well-formed skeletons with k<=2 malformed lines planted at every position, in every role, through every file-reading command and lint; exact message, line number and order asserted", "§4 C09"),
+ "C10": ("every byte offset at which the reader starts failing x delivery style x chunking, on the parser and on 14 commands through the CmdUtils seam; directories and over-long lines on real files", "§4 C10"),
+ "C13": ("all pairs of exotic names x quantity literals through the three CSV exports; own RFC 4180 reader; row sets, order, names, ISO dates and half-unit accuracy against exact rationals", "§4 C13"),
+ "C14": ("logs x 4 date formats x periods x layouts: print, print again (fixpoint), parse back, csv log of both", "§4 C14"),
+ "C16": ("the product flag x env x config entry for the five settings x config location (quick: <= 3 sources set; thorough: full 2^14 product), differential against flags-only runs; explicit config existing/missing; --no-database", "§4 C16"),
+ "C17": ("every byte offset at which the output sink starts failing (exhaustive for reports <= 700 bytes, stated sample above) x 22 command shapes x 3 inputs through the CmdUtils seam; real binary on /dev/full and a closed pipe", "§4 C17"),
+})
 NOTES = {
+ "C04": "trusted: generator/renderer in harness/gen.go; the well-formed grammar excludes names that begin or end with punctuation the tokenizer trims; -0 == 0",
+ "C09": "trusted: generator knows physical line numbers; lint's exit status is not asserted; expected messages are built with the repository's own error constructors (format changes are not flagged, wrong line/number is)",
+ "C10": "trusted: faultReader models io.Reader failure (error alone or with the last bytes, short reads); weak form of the property (success => complete); stats is covered only on real files (it opens files itself)",
+ "C13": "trusted: own RFC 4180 reader in harness/parse.go; float64 representation slack of 2^-50 relative on the true value",
+ "C14": "trusted: note texts are alphanumeric with inner blanks (documented forms); quantities compared at two decimals",
+ "C16": "trusted: flags-only runs are the reference (flag handling itself is pinned by the other checks); default config path patched on the cli.App, real $HOME untouched; neither-source case of `today` compares two wall-clock runs",
+ "C17": "trusted: faultWriter models a sink that accepts k bytes then fails with a short write; commands are built from the repository's exported constructors with the real root flags (the one-line Command() wrappers are covered only by the /dev/full and closed-pipe runs of the real binary)",
  "C01": "trusted: overlay map-order seam, big.Rat reference in harness/c01.go; dyadic coefficients so float sums are exact",
  "C02": "trusted: report parsers in harness/parse.go, reference register in harness/model.go; -0.00 and 0.00 are identified",
  "C03": "trusted: balance parser, prefix-sum reference; collapse modes asserted only on prefix-free food sets (as the property states)",
